@@ -76,3 +76,22 @@ Example C19_ex_outputs_equal :
   run_hist F1 ex_w (left_run ex_pes) = run_hist F1 ex_w (right_run ex_pes) /\
   length (run_hist F1 ex_w (left_run ex_pes)) = 2.
 Proof. split; vm_compute; reflexivity. Qed.
+
+(* HerReplayBuffer with copy_info_dict: add() retains fresh copies of the info dicts AND of the mutable values inside
+   them; sample() only reads library state.  (Instances of the general theorems above for these two programs.) *)
+Theorem C19_her_programs_disciplined : her_components_disciplined = true.
+Proof. vm_compute. reflexivity. Qed.
+Print Assumptions C19_her_programs_disciplined.
+
+(* non-vacuity for HER: the caller passes 7 objects (locations 7..13), add() retains copies, the caller then overwrites
+   the mutable value inside its info dict (location 13) in the second run only; sample() returns the same five objects *)
+Definition her_w : world :=
+  mk_world (map (fun n => [Z.of_nat n]) (seq 0 14)) (seq 0 7) [] (seq 7 7).
+Definition her_pes : list pevent :=
+  [ Both (ECall her_add (seq 7 7)); Extra 13 [77%Z]; Both (ECall her_sample []) ].
+Example C19_her_hyps : calls_disciplined 7 her_pes = true /\ clean [] her_pes = true.
+Proof. split; vm_compute; reflexivity. Qed.
+Example C19_her_outputs_equal :
+  run_hist F1 her_w (left_run her_pes) = run_hist F1 her_w (right_run her_pes) /\
+  length (run_hist F1 her_w (left_run her_pes)) = 2.
+Proof. split; vm_compute; reflexivity. Qed.
